@@ -16,13 +16,23 @@ PROPS["C13"] = dict(
              codes={31: "farm.end-block-abort", 32: "farm.queue-hygiene", 33: "farm.pool-not-closed-exactly-once-at-end-height"}),
         dict(name="service", quick=48, thorough=1200, check_module="Queues.CheckService", check_fn="check_service", case_type="scase", coq_shard=6,
              codes={41: "service.end-block-abort", 42: "service.queue-hygiene", 43: "service.batch-not-handled-exactly-once-at-due-height"}),
+        dict(name="abci", quick=12, thorough=300, check_module="Queues.CheckAbci", check_fn="check_abci", case_type="acase", coq_shard=4,
+             codes={51: "abci.finalize-block-failed", 52: "abci.htlc-queue-hygiene", 53: "abci.random-queue-hygiene",
+                    54: "abci.farm-queue-hygiene", 55: "abci.service-queue-hygiene"}),
     ],
     rule="per module one stream of histories interleaving object creation / modification / closing with block "
          "boundaries (block times advancing by 1..10^5 s), several objects due at one height, operations attempted in "
          "the block an object falls due; non-trivial = an object is modified or closed (or that is attempted) in the "
-         "block it falls due or the block before, or >= 2 objects fall due together; distinct = by hash of the history",
+         "block it falls due or the block before, or >= 2 objects fall due together; distinct = by hash of the history; "
+         "service: contexts of MsgCallService, oracle feeds and random oracle requests; stream abci: mixed histories of "
+         "the four modules through real FinalizeBlock / Commit with signed transactions (>= 2 transactions in a block)",
     codes={},
-    explain={41: "the service end-blocker aborted",
+    explain={51: "FinalizeBlock failed (or panicked): a begin / end blocker of some module aborted in the real ABCI run",
+             52: "ABCI run: the HTLC expiry queue and the open contracts are not in bijection after a committed block",
+             53: "ABCI run: a random request entry lies behind the committed height, or a duplicate key",
+             54: "ABCI run: farm active-pool queue hygiene fails on the committed state",
+             55: "ABCI run: service batch queues / markers / running contexts hygiene fails on the committed state",
+             41: "the service end-blocker aborted (e.g. a module callback dereferenced a nil error)",
              42: "service batch queues: duplicate entry, entry behind the current height, entry without context or height marker, marker without entry, a context in both queues, or a running context in neither",
              43: "a batch entry vanished outside the end-blocker of its height, or the end-blocker handled a new batch without starting/skipping it and scheduling its expiration, or an expiration without completing the batch",
              31: "the farm end-blocker aborted",
@@ -35,6 +45,9 @@ PROPS["C13"] = dict(
              13: "an HTLC was refunded in a block other than its expiration height, or a closed HTLC changed again"},
     trusted_base=["ids (SHA-256) are interned: equal bytes <-> equal number; the model never hashes",
                   "money-dependent branch outcomes (bank, asset limits, secrets, provider prices) enter the queue models as boolean inputs "
-                  "read off the implementation's behaviour; the amounts themselves belong to C03-C08"],
+                  "read off the implementation's behaviour; the amounts themselves belong to C03-C08; the two hypotheses this leaves "
+                  "(farm: duration >= 0, no refund fails in updatePool; htlc: no refund fails) are theorems about the full farm / HTLC "
+                  "models (Queues/LinkFarm.v, Queues/LinkHtlc.v), which are tied to the code by the checks of C05/C06 and C03/C04",
+                  "the ABCI stream evaluates abort + hygiene only (no model correspondence inside a block)"],
     assumptions=["block heights increase by one; block time > 0 (unix seconds)"],
 )
